@@ -24,6 +24,10 @@ package main
 //@   # pass 1: maxPlenc only grows, so it ends at least as large as every index seen
 //@   loop 1 invariant[C20] maxPlenc >= entry_maxPlenc
 //@   loop 1 decreases rangelen - rangeindex
+//@   # pass 1 looks at every field that has a tag, and leaves the maximum at least as large as the index it found there:
+//@   # with the maximum only growing, it ends at least as large as every index already present in the struct
+//@   loop 1 step[C20] f.Tag != nil ==> called_plencValue
+//@   loop 1 step[C20] called_plencValue && call_plencValue_r1 == nil ==> maxPlenc >= call_plencValue_r0
 //@   # pass 2: numbers handed out are taken from a counter that only grows from the pass 1 maximum
 //@   loop 2 invariant[C20] maxPlenc >= entry_maxPlenc
 //@   loop 2 assume maxPlenc < (1 << 62)          # existing indexes and the number of fields are far below the integer range
